@@ -93,3 +93,27 @@ package rootmulti
 //@   ensures [once] q.calls <= old(q.calls) + 1
 //@   ensures [forwarded] q.calls == old(q.calls) + 1 ==> q.height == req.Height && q.data == req.Data && q.prove == req.Prove
 //@   ensures [passed] q.calls == old(q.calls) + 1 && !req.Prove ==> res.Height == q.resheight && res.Value == q.resvalue
+
+// ASSUMED (amino): the commit info stored under s/<ver> carries version ver
+//@ assumed func getCommitInfo(db dbm.DB, ver int64) (ci commitInfo, err error)
+//@   ensures err == nil ==> ci.Version == ver
+
+// C12: loading a version either succeeds - the store then reports exactly that version - or fails and leaves the
+// reported version and the mounted substores as they were (version 0 is the start-up path: substores are
+// installed one by one)
+//@ func (rs *Store) LoadVersion(ver int64) (err error)
+//@   props C12
+//@   may_panic
+//@   modifies everything
+//@   loop 1 invariant rs.lastCommitID == old(rs.lastCommitID)
+//@   loop 2 invariant rs.lastCommitID == old(rs.lastCommitID) && rs.stores == old(rs.stores)
+//@   loop 3 invariant rs.lastCommitID == old(rs.lastCommitID) && rs.stores == old(rs.stores)
+//@   ensures [failed] err != nil ==> rs.lastCommitID == old(rs.lastCommitID)
+//@   ensures [failed-stores] err != nil && ver != 0 ==> rs.stores == old(rs.stores)
+//@   ensures [loaded] err == nil ==> rs.lastCommitID.Version == ver
+
+//@ func (rs *Store) nameToKey(name string) (r types.StoreKey)
+//@   props C12
+//@   may_panic
+//@   loop 1 invariant true
+//@   ensures true
